@@ -418,17 +418,63 @@ func (c *Ctx) ruleR13d(rule string) {
 	} else {
 		c.R.Hold(rule, name+" -> TransformNode @"+c.P.InstrPos(tn), "(userCtx, receiver)")
 	}
+	// the loop over the children: in Transform itself, or in a helper that is handed the receiver and the user context
+	lcFn := fn
+	recvL, uctxL := ssa.Value(recv), ssa.Value(uctx)
+	var hc *ssa.Call
+	if len(loopCalls) == 0 {
+		for _, call := range ssax.Calls(fn) {
+			k, ok := call.(*ssa.Call)
+			if !ok || k.Call.IsInvoke() {
+				continue
+			}
+			h := k.Call.StaticCallee()
+			if h == nil || !c.P.InLib(h) || len(h.Blocks) == 0 || h == fn {
+				continue
+			}
+			var inner []*ssa.Call
+			for _, c2 := range ssax.Calls(h) {
+				if cl, ok := c2.(*ssa.Call); ok && cl.Call.StaticCallee() == pt {
+					inner = append(inner, cl)
+				}
+			}
+			if len(inner) == 0 {
+				continue
+			}
+			var hr, hu ssa.Value
+			for i, a := range k.Call.Args {
+				if i >= len(h.Params) {
+					break
+				}
+				if ssax.Strip(a) == ssa.Value(recv) {
+					hr = h.Params[i]
+				}
+				if a == ssa.Value(uctx) {
+					hu = h.Params[i]
+				}
+			}
+			if hr == nil || hu == nil {
+				continue
+			}
+			lcFn, recvL, uctxL, hc, loopCalls = h, hr, hu, k, inner
+		}
+	}
 	if len(loopCalls) != 1 {
 		c.R.Violation(rule, name+" child transformation", name, c.P.Pos(fn.Pos()), fmt.Sprintf("%d calls of parsley.Transform; expected one, in the loop over the children", len(loopCalls)))
 		return
 	}
+	lname := c.name(lcFn)
 	lc := loopCalls[0]
 	// argument: element of n.children at the range index; result stored back at the same index of n.children
 	okArg, okStore := false, false
 	var idx ssa.Value
-	if u, ok := lc.Call.Args[1].(*ssa.UnOp); ok && u.Op == token.MUL && lc.Call.Args[0] == ssa.Value(uctx) {
+	isChildrenOfRecv := func(v ssa.Value) bool {
+		base, f, ok := fieldLoad(v)
+		return ok && f == c.model().NTChildren && base == recvL
+	}
+	if u, ok := lc.Call.Args[1].(*ssa.UnOp); ok && u.Op == token.MUL && lc.Call.Args[0] == uctxL {
 		if ia, ok := u.X.(*ssa.IndexAddr); ok {
-			if base, f, ok := fieldLoad(ia.X); ok && f == c.model().NTChildren && base == ssa.Value(recv) && isFullRangeIndex(ia.Index, ia.X) {
+			if isChildrenOfRecv(ia.X) && (isFullRangeIndex(ia.Index, ia.X) || indexLoopOf(ia.Index, ia.X) != nil) {
 				okArg = true
 				idx = ia.Index
 			}
@@ -440,34 +486,44 @@ func (c *Ctx) ruleR13d(rule string) {
 		}
 		for _, r := range *e.Referrers() {
 			if st, ok := r.(*ssa.Store); ok {
-				if ia, ok := st.Addr.(*ssa.IndexAddr); ok && ia.Index == idx {
-					if base, f, ok := fieldLoad(ia.X); ok && f == c.model().NTChildren && base == ssa.Value(recv) {
-						okStore = true
-					}
+				if ia, ok := st.Addr.(*ssa.IndexAddr); ok && ia.Index == idx && isChildrenOfRecv(ia.X) {
+					okStore = true
 				}
 			}
 		}
 	}
 	if okArg && okStore {
-		c.R.Hold(rule, name+" child loop @"+c.P.InstrPos(lc), "children[i] = parsley.Transform(userCtx, children[i]) for every i")
+		c.R.Hold(rule, lname+" child loop @"+c.P.InstrPos(lc), "children[i] = parsley.Transform(userCtx, children[i]) for every i")
 	} else {
-		c.R.Violation(rule, name+" child loop shape", name, c.P.InstrPos(lc), fmt.Sprintf("the loop does not transform every child and store the result back at the same index (argument ok=%v, store ok=%v)", okArg, okStore))
+		c.R.Violation(rule, name+" child loop shape", lname, c.P.InstrPos(lc), fmt.Sprintf("the loop does not transform every child and store the result back at the same index (argument ok=%v, store ok=%v)", okArg, okStore))
 	}
-	// error abort
-	abort := false
-	for _, e := range ssax.Extracts(lc, 1) {
-		if e.Referrers() == nil {
-			continue
-		}
-		for _, r := range *e.Referrers() {
-			if ret, ok := r.(*ssa.Return); ok && ssax.IsNilConst(ret.Results[0]) && ret.Results[1] == ssa.Value(e) {
-				for _, cd := range ssax.DominatingConds(ret.Block()) {
-					if x, nilIfTrue, isNT := nilTest(cd.Val); isNT && x == ssa.Value(e) && cd.Truth != nilIfTrue {
-						abort = true
-					}
+	// error abort: the loop's function returns the child's error at once; Transform turns it into (nil, err)
+	errorReturned := func(g *ssa.Function, e ssa.Value, wantNilFirst bool) bool {
+		for _, ret := range ssax.Returns(g) {
+			last := ret.Results[len(ret.Results)-1]
+			if ssax.Strip(last) != e {
+				continue
+			}
+			if wantNilFirst && !(len(ret.Results) == 2 && ssax.IsNilConst(ret.Results[0])) {
+				continue
+			}
+			for _, cd := range ssax.DominatingConds(ret.Block()) {
+				if x, nilIfTrue, isNT := nilTest(cd.Val); isNT && x == e && cd.Truth != nilIfTrue {
+					return true
 				}
 			}
 		}
+		return false
+	}
+	abort := false
+	for _, e := range ssax.Extracts(lc, 1) {
+		if errorReturned(lcFn, e, hc == nil) {
+			abort = true
+		}
+	}
+	if abort && hc != nil {
+		// the helper's error reaches Transform's caller as (nil, err)
+		abort = errorReturned(fn, hc, true)
 	}
 	if abort {
 		c.R.Hold(rule, name+" error abort", "returns (nil, err) on the first child error")
@@ -476,16 +532,40 @@ func (c *Ctx) ruleR13d(rule string) {
 	}
 	// returning the receiver only after the loop
 	loopHead := lc.Block()
-	for _, b := range fn.Blocks {
+	for _, b := range lcFn.Blocks {
 		if b.Dominates(lc.Block()) && ssax.Reaches(lc.Block(), b, false) && b.Dominates(loopHead) {
 			loopHead = b // the outermost block of the cycle: the loop header
+		}
+	}
+	if hc != nil {
+		// in the helper a nil error is returned only after the loop
+		for _, r := range ssax.Returns(lcFn) {
+			last := r.Results[len(r.Results)-1]
+			if !ssax.IsNilConst(ssax.Strip(last)) {
+				continue
+			}
+			if !loopHead.Dominates(r.Block()) {
+				c.R.Violation(rule, name+" returns itself without transforming children", lname, c.P.InstrPos(r), "the helper reports success on a path that does not pass through the loop over the children")
+			}
 		}
 	}
 	for _, r := range ssax.Returns(fn) {
 		if ssax.Strip(r.Results[0]) != ssa.Value(recv) {
 			continue
 		}
-		if loopHead.Dominates(r.Block()) && ssax.IsNilConst(r.Results[1]) {
+		good := ssax.IsNilConst(r.Results[1])
+		if hc == nil {
+			good = good && loopHead.Dominates(r.Block())
+		} else {
+			passed := false
+			for _, cd := range ssax.DominatingConds(r.Block()) {
+				if x, nilIfTrue, isNT := nilTest(cd.Val); isNT && x == ssa.Value(hc) && cd.Truth == nilIfTrue {
+					passed = true
+				}
+			}
+			good = good && passed
+		}
+		if good {
 			c.R.Hold(rule, name+" return @"+c.P.InstrPos(r), "receiver returned after the child loop")
 		} else {
 			c.R.Violation(rule, name+" returns itself without transforming children", name, c.P.InstrPos(r), "a path returns the node unchanged without passing through the loop over its children: descendants with their own transformers are not transformed and their errors are swallowed")
